@@ -1145,6 +1145,9 @@ pub fn weekday_pool() -> Vec<Option<Vec<String>>> {
 pub fn path_pool() -> Vec<Template> {
     [
         "/a", "/a", "/a/b", "/A", "/a?x=1", "/a?x=1&y=2", "/b", "/a/@n", "/a/@n/c", "/a/@w", "/@w/b", "/a/@n/@w", "/a/@any", "/A/@n", "/a/@up", "/a?x=@n",
+        // pattern rules that diverge on an *escaped* character (regex::escape protects '.', '-', '?'): the
+        // prefix computation of the regex tree must not stop between the backslash and the character
+        "/a.@n", "/a-@n", "/a.x?y=@w",
     ]
     .iter()
     .map(|s| Template::parse(s))
